@@ -122,3 +122,9 @@ Theorem C11_pack_shapes :
     pack V K fid args kw true = CTriple fid args kw.
 Proof. exact pack_shapes. Qed.
 Print Assumptions C11_pack_shapes.
+
+Theorem C11_strict_rule_no_finish_refuted :
+  forall B k : Z, 1 <= B -> 1 <= k ->
+    count_finish (labels_strict B (k * B)) = 0%nat /\ labels_ok (labels_strict B (k * B)) = false.
+Proof. exact strict_rule_no_finish. Qed.
+Print Assumptions C11_strict_rule_no_finish_refuted.
